@@ -30,6 +30,15 @@ pub struct Case {
     /// 0 = default whitespace skipping, 1..3 = Layout rule (whitespace + comments templates)
     #[serde(default)]
     pub layout_mode: u8,
+    /// leg 2: the parser is the GENERATED one (real rcomp output compiled by rustc, generic
+    /// builder) in this table layout; the search leg never sets it, a replay of a leg-2 failure does
+    #[serde(default)]
+    pub generated: Option<GenLeg>,
+}
+
+#[derive(Clone, Copy, Debug, Serialize, Deserialize, PartialEq, Eq)]
+pub struct GenLeg {
+    pub arrays: bool,
 }
 
 fn kind_of(mode: u8) -> Option<LayoutKind> {
@@ -207,6 +216,7 @@ impl Prop for C15 {
                 mutations,
                 badlex,
                 layout_mode,
+                generated: None,
             })
             .boxed()
     }
@@ -246,6 +256,19 @@ impl Prop for C15 {
                "custom_lexers": case.badlex.iter().map(|(m, k)| format!("{:?}", badmode(*m, *k, case.g.spec.terms.len() + 1))).collect::<Vec<_>>()})
     }
     fn check(&self, case: &Case, st: &mut Stats) -> Outcome {
+        if case.generated.is_some() {
+            // replay of a failure of the generated-code leg: one scratch crate for this case
+            return match generated_batch(std::slice::from_ref(case), "replay") {
+                Ok((fails, _, _)) => match fails.into_iter().next() {
+                    Some(f) => Outcome::fail(f.sig, f.msg),
+                    None => Outcome::Pass,
+                },
+                Err(e) => {
+                    st.discard(&format!("engine-b-infrastructure:{}", e.chars().take(60).collect::<String>()));
+                    Outcome::Pass
+                }
+            };
+        }
         let spec_meta = spec_of(case);
         let spec = &spec_meta;
         let text = spec.render();
@@ -390,4 +413,167 @@ impl Prop for C15 {
         dynp::uninstall();
         Outcome::Pass
     }
+}
+
+// ---------------------------------------------------------------------------------------
+// leg 2: generated parsers (engine B)
+
+fn gen_inputs(c: &Case) -> Vec<String> {
+    let max_len = if c.glr { 24 } else { 220 };
+    let ntape = c.g.tapes.len();
+    inputs_of(c)
+        .into_iter()
+        .enumerate()
+        .filter(|(idx, inp)| !(inp.len() > max_len && !(*idx < ntape && inp.len() <= 400)))
+        .map(|(_, i)| i)
+        .collect()
+}
+
+fn gen_driver(c: &Case, inputs: &[String]) -> String {
+    let mut s = String::from("use super::g::*;\nuse rustemo::Parser;\npub fn run() -> String {\n    let mut out = String::new();\n");
+    s.push_str(&format!("    let inputs: [&str; {}] = [{}];\n", inputs.len(), inputs.iter().map(|i| format!("{i:?}")).collect::<Vec<_>>().join(", ")));
+    // fresh parser per input, then one parser instance for all inputs
+    s.push_str("    for (k, inp) in inputs.iter().enumerate() {\n        let r = std::panic::catch_unwind(|| match GParser::new().parse(inp) { Ok(_) => \"OK\".to_string(), Err(_) => \"ERR\".to_string() });\n        out.push_str(&format!(\"P {k} {}\\n\", r.unwrap_or_else(|e| format!(\"PANIC {}\", e.downcast_ref::<String>().cloned().or_else(|| e.downcast_ref::<&str>().map(|s| s.to_string())).unwrap_or_default().replace('\\n', \" \")))));\n    }\n");
+    s.push_str("    let parser = std::panic::AssertUnwindSafe(GParser::new());\n    for (k, inp) in inputs.iter().enumerate() {\n        let r = std::panic::catch_unwind(|| match parser.parse(inp) { Ok(_) => \"OK\".to_string(), Err(_) => \"ERR\".to_string() });\n        out.push_str(&format!(\"R {k} {}\\n\", r.unwrap_or_else(|e| format!(\"PANIC {}\", e.downcast_ref::<String>().cloned().or_else(|| e.downcast_ref::<&str>().map(|s| s.to_string())).unwrap_or_default().replace('\\n', \" \")))));\n    }\n");
+    let _ = c;
+    s.push_str("    out\n}\n");
+    s
+}
+
+/// Generate, compile (rustc) and run the real generated parsers of the cases in one scratch
+/// crate. Returns (failures, modules run, parses run).
+pub fn generated_batch(cases: &[Case], tag: &str) -> Result<(Vec<crate::runner::BatchFailure>, usize, usize), String> {
+    use crate::engine_b::{BConfig, GenResult, Scratch};
+    let mut sc = Scratch::new(&format!("c15-{tag}"));
+    let mut mods: Vec<(String, &Case, String, Vec<String>)> = vec![];
+    for (i, c) in cases.iter().enumerate() {
+        let g = match c.generated {
+            Some(g) => g,
+            None => continue,
+        };
+        let text = spec_of(c).render();
+        let cfg = BConfig { glr: c.glr, builder: 1, arrays: g.arrays, loc_info: false, fancy: false, custom_lexer: false, rn_table: false };
+        let m = format!("m{i}");
+        match sc.generate(&m, &text, &cfg) {
+            GenResult::Ok => {}
+            _ => continue,
+        }
+        let inputs = gen_inputs(c);
+        sc.write_mod(&m, &cfg, Some(&gen_driver(c, &inputs)));
+        mods.push((m, c, text, inputs));
+    }
+    if mods.is_empty() {
+        return Ok((vec![], 0, 0));
+    }
+    let (dropped, blocks) = sc.build_and_run()?;
+    let mut fails = vec![];
+    let mut parses = 0;
+    let mut ran = 0;
+    for (m, c, text, inputs) in &mods {
+        if dropped.contains_key(m) {
+            continue; // does not compile: C11's subject
+        }
+        ran += 1;
+        let block = blocks.get(m).cloned().unwrap_or_default();
+        let algo = if c.glr { "GLR" } else { "LR" };
+        let layout = if c.generated.map(|g| g.arrays).unwrap_or(false) { "arrays" } else { "functions" };
+        let mut lines_seen = 0;
+        for line in block.lines() {
+            let mut it = line.splitn(3, ' ');
+            let (how, k, res) = (it.next().unwrap_or(""), it.next().unwrap_or(""), it.next().unwrap_or(""));
+            if how != "P" && how != "R" {
+                continue;
+            }
+            lines_seen += 1;
+            parses += 1;
+            if let Some(pm) = res.strip_prefix("PANIC") {
+                let k: usize = k.parse().unwrap_or(0);
+                let inp = inputs.get(k).cloned().unwrap_or_default();
+                fails.push(crate::runner::BatchFailure {
+                    sig: format!("panic|{algo}|generated-{layout}{}|{}", if how == "R" { "|reused-parser" } else { "" }, crate::compile::norm_msg(pm.trim())),
+                    msg: format!("the generated parser ({layout} layout, generic builder, {algo}) panicked: {}\ngrammar:\n{text}\ninput: {inp:?}{}", pm.trim(), if how == "R" { "\n(one parser instance parsed all inputs of the case in order)" } else { "" }),
+                    case: serde_json::to_value(Case { raw_inputs: vec![inp.clone()], g: GCase { tapes: vec![], ..c.g.clone() }, mutations: vec![], badlex: vec![], ..(*c).clone() }).unwrap(),
+                    description: json!({"grammar": text, "algo": algo, "table_layout": layout, "input": inp}),
+                });
+                break;
+            }
+        }
+        if lines_seen < 2 * inputs.len() && !block.contains("PANIC") {
+            // the module died outside catch_unwind (abort / stack overflow) or printed nothing
+            fails.push(crate::runner::BatchFailure {
+                sig: format!("abort|{algo}|generated-{layout}"),
+                msg: format!("the generated parser produced {} of {} result lines (abort?)\ngrammar:\n{text}\ninputs: {inputs:?}", lines_seen, 2 * inputs.len()),
+                case: serde_json::to_value((*c).clone()).unwrap(),
+                description: json!({"grammar": text, "algo": algo, "table_layout": layout}),
+            });
+        }
+    }
+    sc.cleanup();
+    Ok((fails, ran, parses))
+}
+
+/// Leg 2 of C15: real generated parsers. Grammars come from the same families; LR only where
+/// the raw table is conflict free (the recorded LR reduction loop needs forced resolution and
+/// generated code has no step budget).
+pub fn generated_leg(tier: Tier, seed: u64) -> crate::runner::RunResult {
+    use proptest::strategy::ValueTree;
+    let t0 = std::time::Instant::now();
+    let ngrammars = match tier {
+        Tier::Quick => 24,
+        Tier::Thorough => 240,
+    };
+    let mut runner = crate::runner::batch_runner(seed, "C15-generated", 0);
+    let strat = C15.strategy(tier);
+    let mut cases: Vec<Case> = vec![];
+    let mut tries = 0;
+    let mut grammars = 0;
+    while grammars < ngrammars && tries < ngrammars * 20 {
+        tries += 1;
+        let mut c = strat.new_tree(&mut runner).unwrap().current();
+        c.meta_tape = vec![];
+        c.partial = false;
+        let text = spec_of(&c).render();
+        let bnf = c.g.spec.bnf();
+        if bnf.is_cyclic() {
+            continue; // generated GLR code has no step budget: stay with acyclic grammars
+        }
+        let raw_ok = matches!(compile(&text, &Cfg::raw(crate::compile::TT::Pager)), Ok(d) if !has_conflicts(&d));
+        let mut any = false;
+        for glr in [false, true] {
+            if !glr && !raw_ok {
+                continue;
+            }
+            for arrays in [false, true] {
+                cases.push(Case { glr, generated: Some(GenLeg { arrays }), ..c.clone() });
+                any = true;
+            }
+        }
+        if any {
+            grammars += 1;
+        }
+    }
+    let mut failures = vec![];
+    let (mut ran, mut parses) = (0, 0);
+    for (b, chunk) in cases.chunks(48).enumerate() {
+        match generated_batch(chunk, &format!("leg{b}")) {
+            Ok((f, r, p)) => {
+                failures.extend(f);
+                ran += r;
+                parses += p;
+            }
+            Err(e) => {
+                eprintln!("engine B infrastructure: {e}");
+                return crate::runner::RunResult { exit: 2, lines: vec![format!("inconclusive: {e}")] };
+            }
+        }
+    }
+    let cov = json!({
+        "engine": "B: rcomp output compiled by rustc, generic builder",
+        "grammars": grammars,
+        "modules_run": ran,
+        "parses": parses,
+        "rule": "acyclic grammars of the same families x {LR (raw table conflict free), GLR} x {functions, arrays}; the inputs of leg 1 (<= 24 bytes for GLR unless rendered) parsed by a fresh generated parser each and once more by one reused instance, under catch_unwind; any panic or abort is a violation",
+        "wall_s": (t0.elapsed().as_secs_f64() * 100.0).round() / 100.0,
+    });
+    crate::runner::append_leg("C15", tier, seed, failures, "generated_code_leg", cov)
 }
